@@ -78,6 +78,14 @@ type mismatch struct {
 	Conc      string `json:"concurrent"`
 }
 
+// hang: a phase of a batch that did not finish within its deadline
+type hang struct {
+	Phase     string   `json:"phase"` // "concurrent" or "sequential"
+	DeadlineS float64  `json:"deadline_s"`
+	Blocked   int      `json:"goroutines_blocked_in_in_toto"`
+	Stacks    []string `json:"blocked_stacks"` // goroutines with an in_toto frame, as dumped by runtime.Stack(all)
+}
+
 type batchResult struct {
 	batch
 	Klass      string         `json:"klass"`
@@ -86,6 +94,7 @@ type batchResult struct {
 	Errors     map[string]int `json:"error_results"` // calls whose (sequential) result is an error, by kind
 	Trees      map[string]int `json:"trees"`
 	Mismatches []mismatch     `json:"mismatches"`
+	Hang       *hang          `json:"did_not_return,omitempty"`
 	Tasks      []task         `json:"tasks,omitempty"` // only kept when there is a mismatch
 }
 
@@ -123,7 +132,7 @@ func isRelativeTask(t task) bool {
 }
 
 var treeKinds = []string{"plain", "plain", "file-links", "file-links", "dir-links", "dir-links", "dir-links",
-	"nested-dir-links", "nested-dir-links", "nested-dir-links", "cycle", "dangling"}
+	"nested-dir-links", "nested-dir-links", "nested-dir-links", "cycle", "dangling", "big-links"}
 
 func genTasks(b batch) []task {
 	r := lib.NewRng(b.Seed)
@@ -159,7 +168,7 @@ func genTasks(b batch) []task {
 		}
 		switch b.Mix {
 		case "record-symlinks":
-			t.TreeKind = []string{"file-links", "dir-links", "dir-links", "nested-dir-links", "nested-dir-links", "cycle"}[tr.Intn(6)]
+			t.TreeKind = []string{"file-links", "dir-links", "dir-links", "nested-dir-links", "nested-dir-links", "cycle", "big-links", "big-links"}[tr.Intn(8)]
 		default:
 			t.TreeKind = treeKinds[tr.Intn(len(treeKinds))]
 		}
@@ -222,6 +231,19 @@ func buildTree(root string, t task) {
 		must(os.Symlink(filepath.Join(root, "ext", "other"), filepath.Join(root, "ext", "lib", "more")))
 		must(os.Symlink(filepath.Join(root, "src", "main.c"), filepath.Join(root, "ext", "other", "file-link")))
 		must(os.Symlink(filepath.Join(root, "ext", "lib"), filepath.Join(root, "src", "util", "vendor2")))
+	case "big-links":
+		// a few larger files (walked before the links: a walk takes a while) plus file links, a chain of file
+		// links, directory links and a chain of directory links
+		for j := 0; j < 3; j++ {
+			writeFile(filepath.Join(root, "src", fmt.Sprintf("a-big-%d.bin", j)), strings.Repeat(fmt.Sprintf("%s/%d|", tag, j), 40000))
+		}
+		must(os.Symlink(filepath.Join(root, "src", "main.c"), filepath.Join(root, "src", "l1.c")))
+		must(os.Symlink(filepath.Join(root, "src", "l1.c"), filepath.Join(root, "src", "l2.c")))
+		must(os.Symlink("l2.c", filepath.Join(root, "src", "l3.c")))
+		must(os.Symlink(filepath.Join(root, "ext", "lib"), filepath.Join(root, "src", "vendor")))
+		must(os.Symlink(filepath.Join(root, "ext", "other"), filepath.Join(root, "ext", "lib", "more")))
+		must(os.Symlink(filepath.Join(root, "src", "vendor"), filepath.Join(root, "src", "zz-vendor-again")))
+		must(os.Symlink(filepath.Join(root, "src", "a-big-0.bin"), filepath.Join(root, "ext", "other", "big-link.bin")))
 	case "cycle":
 		must(os.Symlink(filepath.Join(root, "src"), filepath.Join(root, "src", "util", "loop")))
 	case "dangling":
@@ -744,6 +766,66 @@ func runTask(t task, root string, yield bool) (out []string) {
 
 // ---------- one batch ----------
 
+// exit status of the harness when a phase did not return (the blocked goroutines cannot be cancelled: the process ends)
+const exitDidNotReturn = 77
+
+// perCallSeq: running maximum of the observed sequential time per call; the deadline of a phase is
+// 10 x (calls x perCallSeq), at least 20 s
+var perCallSeq = 200 * time.Millisecond
+
+// emit is set by main: what to do with a batch result that has to be written before the process ends
+var emit = func(batchResult) {}
+
+func phaseDeadline(calls int) time.Duration {
+	d := 10 * time.Duration(calls) * perCallSeq
+	if d < 20*time.Second {
+		d = 20 * time.Second
+	}
+	return d
+}
+
+// underDeadline runs f; if it does not return in time, all goroutine stacks are dumped, the batch is reported as
+// did-not-return and the process exits with status 77.
+func underDeadline(res *batchResult, tasks []task, phase string, calls int, f func()) {
+	done := make(chan struct{})
+	go func() {
+		defer close(done)
+		f()
+	}()
+	d := phaseDeadline(calls)
+	timer := time.NewTimer(d)
+	defer timer.Stop()
+	select {
+	case <-done:
+		return
+	case <-timer.C:
+	}
+	buf := make([]byte, 8<<20)
+	buf = buf[:runtime.Stack(buf, true)]
+	h := &hang{Phase: phase, DeadlineS: d.Seconds()}
+	for _, g := range strings.Split(string(buf), "\n\n") {
+		if strings.Contains(g, "in_toto.") {
+			h.Blocked++
+			if len(h.Stacks) < 12 {
+				if len(g) > 4000 {
+					g = g[:4000] + "\n..."
+				}
+				h.Stacks = append(h.Stacks, g)
+			}
+		}
+	}
+	fmt.Fprintf(os.Stderr, "C16-DID-NOT-RETURN id=%d mix=%s goroutines=%d phase=%s deadline=%.0fs goroutines-blocked-in-in_toto=%d\n", res.ID, res.Mix, res.Goroutines, phase, d.Seconds(), h.Blocked)
+	for _, g := range h.Stacks {
+		fmt.Fprintln(os.Stderr, g)
+		fmt.Fprintln(os.Stderr)
+	}
+	fmt.Fprintln(os.Stderr, "C16-DID-NOT-RETURN end")
+	res.Hang = h
+	res.Tasks = tasks
+	emit(*res)
+	os.Exit(exitDidNotReturn)
+}
+
 func runBatch(work string, b batch) batchResult {
 	res := batchResult{batch: b, Klass: b.Mix, Kinds: map[string]int{}, Errors: map[string]int{}, Trees: map[string]int{}}
 	fmt.Fprintf(os.Stderr, "C16-BATCH begin id=%d mix=%s goroutines=%d gomaxprocs=%d yield=%v seed=%d\n", b.ID, b.Mix, b.Goroutines, b.Procs, b.Yield, b.Seed)
@@ -772,19 +854,25 @@ func runBatch(work string, b batch) batchResult {
 	// all at once - BEFORE the sequential run, so that state which is initialised lazily on first use is
 	// first touched by concurrent calls (the oracle works on separate copies of the trees, its position in
 	// time does not matter)
-	conc := make([][]string, len(tasks))
-	var wg sync.WaitGroup
-	start := make(chan struct{})
-	for k := range tasks {
-		wg.Add(1)
-		go func(k int) {
-			defer wg.Done()
-			<-start
-			conc[k] = runTask(tasks[k], root("conc", k), b.Yield)
-		}(k)
+	ncalls := 0
+	for _, t := range tasks {
+		ncalls += len(t.Ops)
 	}
-	close(start)
-	wg.Wait()
+	conc := make([][]string, len(tasks))
+	underDeadline(&res, tasks, "concurrent", ncalls, func() {
+		var wg sync.WaitGroup
+		start := make(chan struct{})
+		for k := range tasks {
+			wg.Add(1)
+			go func(k int) {
+				defer wg.Done()
+				<-start
+				conc[k] = runTask(tasks[k], root("conc", k), b.Yield)
+			}(k)
+		}
+		close(start)
+		wg.Wait()
+	})
 	// the working directory belongs to the harness: no library call may have moved it
 	var cwdMoved []mismatch
 	if wd, err := os.Getwd(); err != nil || wd != fixedCwd {
@@ -793,8 +881,16 @@ func runBatch(work string, b batch) batchResult {
 	}
 	// oracle: the same calls one after the other
 	seq := make([][]string, len(tasks))
+	t0 := time.Now()
+	underDeadline(&res, tasks, "sequential", ncalls, func() {
+		for k, t := range tasks {
+			seq[k] = runTask(t, root("seq", k), false)
+		}
+	})
+	if per := time.Since(t0) / time.Duration(ncalls+1); per > perCallSeq && per < 3*time.Second {
+		perCallSeq = per
+	}
 	for k, t := range tasks {
-		seq[k] = runTask(t, root("seq", k), false)
 		for i, o := range t.Ops {
 			res.Kinds[o.Kind]++
 			res.Calls++
@@ -878,6 +974,13 @@ func main() {
 		f, err := os.Create(outp)
 		must(err)
 		w := bufio.NewWriter(f)
+		emit = func(res batchResult) {
+			line, _ := json.Marshal(res)
+			w.Write(line)
+			w.WriteByte('\n')
+			w.Flush()
+			f.Sync()
+		}
 		r := lib.NewRng(lib.Seed())
 		id := 0
 		for round := 0; round < rounds; round++ {
@@ -891,11 +994,7 @@ func main() {
 							}
 							b := batch{ID: id, Mix: m, Goroutines: g, Procs: p, Yield: y, Seed: r.U64() >> 1}
 							id++
-							res := runBatch(work, b)
-							line, _ := json.Marshal(res)
-							w.Write(line)
-							w.WriteByte('\n')
-							w.Flush()
+							emit(runBatch(work, b))
 						}
 					}
 				}
@@ -915,6 +1014,12 @@ func main() {
 		}
 		work := absDir(os.Args[2], "replay-work")
 		fixCwd(work)
+		emit = func(res batchResult) {
+			if res.Hang != nil {
+				fmt.Printf("DID NOT RETURN: the %s phase of mix=%s goroutines=%d seed=%d did not finish within %.0f s; %d goroutines blocked inside in_toto (stacks above); oracle: every call returns\n",
+					res.Hang.Phase, res.Mix, res.Goroutines, res.Seed, res.Hang.DeadlineS, res.Hang.Blocked)
+			}
+		}
 		bad := 0
 		for i := 0; i < times; i++ {
 			res := runBatch(work, b)
